@@ -1,7 +1,7 @@
 (* C16/Corr.v -- executable comparison of the model with the implementation's answers, as emitted
    by harness/h16.  Each [check_*] returns the indices (and the model's answer) of the cases on
    which model and implementation disagree; the driver expects []. *)
-From C16 Require Import Casm Vm.
+From C16 Require Import Casm Vm Run.
 
 Fixpoint list_eqb {A} (eqb : A -> A -> bool) (a b : list A) : bool :=
   match a, b with
@@ -81,7 +81,13 @@ Definition model_step (i : instr) (m : list cellv) (st : addr * Z * Z)
   let '(pc0, ap0, fp0) := st in
   let s := {| pc := pc0; ap := ap0; fp := fp0 |} in
   match vm_step finv (lookup m) s with
-  | Some r => Some (pc (s_next r), ap (s_next r), fp (s_next r), s_writes r ++ m)
+  | Some r =>
+      (* the deduced cells go through the write-once insertion of C16/Run.v ([commit]), the
+         memory update [C16_run_sound] iterates: a conflicting or out-of-type insert is an error *)
+      match commit (lookup m) (s_writes r) with
+      | Some _ => Some (pc (s_next r), ap (s_next r), fp (s_next r), s_writes r ++ m)
+      | None => None
+      end
   | None => None
   end.
 
@@ -101,3 +107,38 @@ Definition check_step (cs : list step_case) : list (Z * option (addr * Z * Z * l
     if ok then [] else [(k, match ms with
                             | Some (p, a, f, ma) => Some (p, a, f, firstn 3 ma)
                             | None => None end)]) (indexed 0 cs).
+
+(* ---- leg 4: whole runs.  The implementation stepped cairo-vm from the given memory / registers
+   until the first error or [nmax] steps and reports the registers after every successful step
+   and the memory after the last successful one.  The model is [vm_trace] itself (the object of
+   [C16_run_sound]): it must accept exactly as many steps, visit the same states, end with the
+   same memory on the probed window, and -- when the implementation stopped early -- reject the
+   next step. ---- *)
+Definition run_case :=
+  (list cellv * (addr * Z * Z) * nat * list (addr * Z * Z) * list cellv)%type.
+
+Definition st_eqb (x t : addr * Z * Z) : bool :=
+  let '(p, a, f) := t in let '(p', a', f') := x in addr_eqb p' p && (a' =? a) && (f' =? f).
+
+Definition window (segs len : nat) : list addr :=
+  flat_map (fun sg => map (fun o => (Z.of_nat sg, Z.of_nat o)) (seq 0 len)) (seq 0 segs).
+
+Definition check_run (cs : list run_case) : list (Z * Z * option (list (addr * Z * Z))) :=
+  flat_map (fun '(k, (m, st, nmax, states, after)) =>
+    let '(pc0, ap0, fp0) := st in
+    let s := {| pc := pc0; ap := ap0; fp := fp0 |} in
+    let n := length states in
+    let tr_of r := match r with
+                   | Some (_, tr) => Some (map (fun x => (pc x, ap x, fp x)) tr) | None => None end in
+    let r := vm_trace finv n (lookup m) s in
+    let ok1 := match r with
+               | Some (mf, tr) =>
+                   list_eqb st_eqb (map (fun x => (pc x, ap x, fp x)) tr) states
+                   && forallb (fun a => opt_eqb value_eqb (mf a) (lookup after a)) (window 3 72)
+               | None => false end in
+    let ok2 := if (n <? nmax)%nat
+               then match vm_trace finv (S n) (lookup m) s with None => true | Some _ => false end
+               else true in
+    if ok1 && ok2 then []
+    else [(k, if ok1 then 1 else 0,
+           tr_of (if ok1 then vm_trace finv (S n) (lookup m) s else r))]) (indexed 0 cs).
